@@ -59,7 +59,7 @@ def cases(tier, seed):
                     yield {"space": "exhaustive", "kind": "bin", "op": op, "s1": list(s1), "s2": list(s2),
                            "c1": [list(c) for c in c1], "c2": [list(c) for c in c2], "d1": "int64", "d2": "float64",
                            "yk": "dask", "seed": 1}
-    n = 3500 if tier == "quick" else 60000
+    n = 7000 if tier == "quick" else 60000
     for i in range(n):
         s1 = A.rand_shape(rng, maxnd=3, maxlen=6)
         s2 = list(s1)
@@ -83,7 +83,11 @@ def cases(tier, seed):
         elif kind == "unuf":
             d["op"] = rng.choice(UNUF)
         elif kind == "astype":
-            d["op"] = rng.choice(A.DTYPES)
+            # also casts that keep the scalar type / width but change unit or byte order
+            d["op"] = rng.choice(A.DTYPES + ["datetime64[s]", "datetime64[ms]", "datetime64[D]", "timedelta64[s]",
+                                             "timedelta64[h]", "timedelta64[ms]", ">i4", ">f8", "float16", "<U4", "S3"])
+            if rng.random() < 0.35:
+                d["d1"] = rng.choice(("datetime64[ns]", "timedelta64[ns]", "int32", "float64"))
         elif kind == "clip":
             d["op"] = sorted([rng.randint(-3, 3), rng.randint(-3, 3)])
         else:
